@@ -3012,6 +3012,1094 @@ theorem DPBound.needy (ops : BatOps α B) (law : BatLaw ops) (env : FEnv α) (hs
     (hsum : env.sum = List.sum) (hcap : ∀ b, 0 ≤ ops.capacity b) : DPBound ops env :=
   fun w vs vs' P cmds h => distributePower_needy_sum ops law env hstrat hsum hcap w vs vs' P cmds h
 
+/-! ### stations, LOAD_STRAT greedy / needy after FW1/FW2 -/
+
+/-- both station invariants of the step: within ± maximum (`BInv`), connected / V2G (`CInv`) -/
+def JInv (N : List String) (K : List (String × Option String × Bool)) (l : List (StationS α)) : Prop :=
+  BInv N l ∧ CInv K l
+
+/-- a station update that stays within ± the maximum and is justified by a vehicle key -/
+theorem JInv.update (N : List String) (K : List (String × Option String × Bool)) (w : SWorld α B)
+    (cs : StationS α) (x : α) (k : String × Option String × Bool) (hk : k ∈ K) (hkc : k.2.1 = some cs.id)
+    (hinv : JInv N K w.stations) (hcs : cs ∈ w.stations)
+    (hb : -cs.maxPower ≤ cs.currentPower + x ∧ cs.currentPower + x ≤ cs.maxPower)
+    (hx : 0 ≤ x ∨ k.2.2 = true) :
+    JInv (cs.id :: N) K (w.setStation { cs with currentPower := cs.currentPower + x }).stations := by
+  refine ⟨?_, CInv.update K w cs x k hk hkc hinv.2 hcs hx⟩
+  intro s hs
+  rcases mem_setStation _ _ s hs with rfl | hm
+  · exact ⟨hb.1, hb.2, fun hnot => absurd (List.mem_cons_self ..) hnot⟩
+  · obtain ⟨c1, c2, c3⟩ := hinv.1 s hm
+    exact ⟨c1, c2, fun hnot => c3 (fun hin => hnot (List.mem_cons_of_mem _ hin))⟩
+
+/-- a charging update (`0 ≤ x`, within the room) keeps the invariant for the same `N` -/
+theorem JInv.charge (N : List String) (K : List (String × Option String × Bool)) (w : SWorld α B)
+    (cs : StationS α) (x : α) (k : String × Option String × Bool) (hk : k ∈ K) (hkc : k.2.1 = some cs.id)
+    (hinv : JInv N K w.stations) (hcs : cs ∈ w.stations)
+    (hx0 : 0 ≤ x) (hx : x ≤ max (cs.maxPower - cs.currentPower) 0) :
+    JInv N K (w.setStation { cs with currentPower := cs.currentPower + x }).stations := by
+  refine ⟨?_, CInv.update K w cs x k hk hkc hinv.2 hcs (Or.inl hx0)⟩
+  obtain ⟨b1, b2, b3⟩ := hinv.1 cs hcs
+  have hm : max (cs.maxPower - cs.currentPower) 0 = cs.maxPower - cs.currentPower := max_eq_left (by linarith)
+  rw [hm] at hx
+  intro s hs
+  rcases mem_setStation _ _ s hs with rfl | hmm
+  · exact ⟨by simp only; linarith, by simp only; linarith, fun hnot => by have := b3 hnot; simp only; linarith⟩
+  · exact hinv.1 s hmm
+
+theorem clampV_le_room (p : α) (cs : StationS α) (v : VehicleS α B) :
+    clampV p cs v ≤ max (cs.maxPower - cs.currentPower) 0 := by
+  unfold clampV clampPower
+  simp only [pymin_eq, pymax_eq]
+  split
+  · exact le_max_right _ _
+  · exact max_le_max (min_le_right _ _) (le_refl _)
+
+/-- generic fold over vehicles that visit each station at most once (unique vehicle ids, one vehicle per
+station): the station invariants survive -/
+theorem visitFold {σ ε : Type} (proj : σ → SWorld α B) (f : σ → VehicleS α B → Except ε σ)
+    (K : List (String × Option String × Bool)) (Pv : VehicleS α B → Prop)
+    (hkeys : ∀ s v0 s', f s v0 = .ok s' → (proj s).vehicles.map vkey = K → (proj s').vehicles.map vkey = K)
+    (hstep : ∀ s v0 s', f s v0 = .ok s' → (proj s).vehicles.map vkey = K → vkey v0 ∈ K → Pv v0 →
+      (proj s').stations = (proj s).stations ∨
+      ∃ cs x, cs ∈ (proj s).stations ∧ v0.cs = some cs.id ∧
+        (proj s').stations = ((proj s).setStation { cs with currentPower := cs.currentPower + x }).stations ∧
+        (0 ≤ cs.currentPower → cs.currentPower ≤ cs.maxPower →
+          -cs.maxPower ≤ cs.currentPower + x ∧ cs.currentPower + x ≤ cs.maxPower) ∧
+        (0 ≤ x ∨ v0.v2g = true)) :
+    ∀ (vs : List (VehicleS α B)) (s s' : σ) (N : List String),
+      (proj s).vehicles.map vkey = K →
+      (∀ v0 ∈ vs, vkey v0 ∈ K ∧ Pv v0) →
+      (vs.filterMap (·.cs)).Nodup →
+      (∀ c ∈ vs.filterMap (·.cs), c ∉ N) →
+      JInv N K (proj s).stations →
+      vs.foldlM f s = .ok s' →
+      (proj s').vehicles.map vkey = K ∧ ∃ N', JInv N' K (proj s').stations := by
+  intro vs
+  induction vs with
+  | nil =>
+    intro s s' N hK _ _ _ hj h
+    simp only [List.foldlM_nil, pure, Except.pure, Except.ok.injEq] at h
+    subst h; exact ⟨hK, N, hj⟩
+  | cons v0 rest ih =>
+    intro s s' N hK hmem hndc hN hj h
+    simp only [List.foldlM_cons, bind, Except.bind] at h
+    split at h
+    · cases h
+    · rename_i s1 h1
+      have hK1 := hkeys s v0 s1 h1 hK
+      have hmem' : ∀ v ∈ rest, vkey v ∈ K ∧ Pv v := fun v hv => hmem v (List.mem_cons_of_mem _ hv)
+      have hsub : ∀ c ∈ rest.filterMap (·.cs), c ∈ (v0 :: rest).filterMap (·.cs) := by
+        intro c hc
+        rw [List.filterMap_cons]
+        split
+        · exact hc
+        · exact List.mem_cons_of_mem _ hc
+      have hndr : (rest.filterMap (·.cs)).Nodup := by
+        rw [List.filterMap_cons] at hndc
+        split at hndc
+        · exact hndc
+        · exact (List.nodup_cons.mp hndc).2
+      rcases hstep s v0 s1 h1 hK (hmem v0 (List.mem_cons_self ..)).1 (hmem v0 (List.mem_cons_self ..)).2 with hsame | ⟨cs, x, hcs, hv0cs, hst, hb, hx⟩
+      · exact ih s1 s' N hK1 hmem' hndr (fun c hc => hN c (hsub c hc)) (by rw [hsame]; exact hj) h
+      · have hhead : (v0 :: rest).filterMap (·.cs) = cs.id :: rest.filterMap (·.cs) := by
+          rw [List.filterMap_cons, hv0cs]
+        have hcsN : cs.id ∉ N := hN cs.id (by rw [hhead]; exact List.mem_cons_self ..)
+        have hcsrest : cs.id ∉ rest.filterMap (·.cs) := by
+          rw [hhead] at hndc; exact (List.nodup_cons.mp hndc).1
+        obtain ⟨b1, b2, b3⟩ := hj.1 cs hcs
+        refine ih s1 s' (cs.id :: N) hK1 hmem' hndr ?_ ?_ h
+        · intro c hc
+          simp only [List.mem_cons, not_or]
+          exact ⟨fun hcc => hcsrest (hcc ▸ hc), hN c (hsub c hc)⟩
+        · rw [hst]
+          exact JInv.update N K (proj s) cs x (vkey v0) (hmem v0 (List.mem_cons_self ..)).1 hv0cs hj hcs
+            (hb (b3 hcsN) b2) hx
+
+theorem psV2gVehicle_keys (ops : BatOps α B) (env : FEnv α) (curWindow : Option Bool)
+    (acc acc' : V2gAcc α B) (v0 : VehicleS α B)
+    (hnd : (acc.st.w.vehicles.map (·.id)).Nodup)
+    (h : psV2gVehicle ops env curWindow acc v0 = .ok acc') :
+    acc'.st.w.vehicles.map vkey = acc.st.w.vehicles.map vkey := by
+  unfold psV2gVehicle at h
+  simp only [bind, Except.bind, pure, Except.pure] at h
+  repeat' split at h
+  all_goals first
+    | (simp only [Except.ok.injEq] at h; subst h; first | rfl | exact setVehicle_keys _ _ _ hnd)
+    | cases h
+
+/-- **per-call bound, repairs FW1/FW2:** one vehicle of `distribute_peak_shaving_v2g` moves its station's
+`current_power` up by at most `max (max_power − current_power) 0` (FW1: `clamp_power`) or down by at most
+`max_power` (FW2: `min(…, cs.max_power)`) -/
+theorem psV2gVehicle_station_step (ops : BatOps α B) (law : BatLaw ops) (env : FEnv α)
+    (curWindow : Option Bool) (acc acc' : V2gAcc α B) (v0 : VehicleS α B)
+    (h : psV2gVehicle ops env curWindow acc v0 = .ok acc') :
+    acc'.st.w.stations = acc.st.w.stations ∨
+    ∃ csId cs x, ((acc.st.w.vehicle? v0.id).getD v0).cs = some csId ∧ getStation acc.st.w csId = .ok cs ∧
+      acc'.st.w.stations = (acc.st.w.setStation { cs with currentPower := cs.currentPower + x }).stations ∧
+      ((0 ≤ x ∧ x ≤ max (cs.maxPower - cs.currentPower) 0) ∨ (x ≤ 0 ∧ -(max cs.maxPower 0) ≤ x)) := by
+  unfold psV2gVehicle at h
+  simp only [bind, Except.bind, pure, Except.pure] at h
+  split at h
+  · simp only [Except.ok.injEq] at h; subst h; exact Or.inl rfl
+  · split at h
+    · cases h
+    · rename_i csId hcs
+      split at h
+      · cases h
+      · rename_i cs hst
+        split at h
+        · cases h
+        · split at h
+          · cases h
+          · split at h
+            · simp only [Except.ok.injEq] at h; subst h; exact Or.inl rfl
+            · split at h
+              · cases h
+              · split at h
+                · -- window: charge
+                  split at h
+                  · cases h
+                  · split at h
+                    · cases h
+                    · split at h
+                      · cases h
+                      · split at h
+                        · cases h
+                        · rename_i r hl
+                          rw [liftM_ok] at hl
+                          simp only [Except.ok.injEq] at h
+                          subst h
+                          obtain ⟨ha0, hap⟩ := law.load_max _ _ _ _ hl
+                          exact Or.inr ⟨csId, cs, r.2, hcs, hst, rfl, Or.inl ⟨ha0,
+                            le_trans hap (max_le (clampV_le_room _ _ _) (le_max_right _ _))⟩⟩
+                · -- no window: discharge
+                  split at h
+                  · cases h
+                  · split at h
+                    · cases h
+                    · split at h
+                      · cases h
+                      · split at h
+                        · cases h
+                        · split at h
+                          · cases h
+                          · rename_i r hl
+                            simp only [Except.ok.injEq] at h
+                            subst h
+                            have hr : 0 ≤ r.2 ∧ r.2 ≤ max cs.maxPower 0 := by
+                              split at hl
+                              · rw [liftM_ok] at hl
+                                simp only [Except.ok.injEq] at hl
+                                subst hl
+                                exact ⟨le_refl _, le_max_right _ _⟩
+                              · rw [liftM_ok] at hl
+                                obtain ⟨hu0, hup⟩ := law.unload_max _ _ _ _ _ hl
+                                refine ⟨hu0, le_trans hup (max_le ?_ (le_max_right _ _))⟩
+                                simp only [pymin_eq]
+                                exact le_trans (min_le_right _ _) (le_max_left _ _)
+                            exact Or.inr ⟨csId, cs, -r.2, hcs, hst, by simp only [sub_eq_add_neg]; rfl,
+                              Or.inr ⟨by linarith [hr.1], by rw [neg_le_neg_iff]; exact hr.2⟩⟩
+
+/-- from "moves by at most the room up / at most the maximum down" to "stays within ± maximum" -/
+theorem room_bounds (cs : StationS α) (x : α)
+    (hx : (0 ≤ x ∧ x ≤ max (cs.maxPower - cs.currentPower) 0) ∨ (x ≤ 0 ∧ -(max cs.maxPower 0) ≤ x))
+    (h0 : 0 ≤ cs.currentPower) (h1 : cs.currentPower ≤ cs.maxPower) :
+    -cs.maxPower ≤ cs.currentPower + x ∧ cs.currentPower + x ≤ cs.maxPower := by
+  have hm : max (cs.maxPower - cs.currentPower) 0 = cs.maxPower - cs.currentPower := max_eq_left (by linarith)
+  have hm2 : max cs.maxPower 0 = cs.maxPower := max_eq_left (by linarith)
+  rw [hm, hm2] at hx
+  rcases hx with ⟨a, b⟩ | ⟨a, b⟩
+  · exact ⟨by linarith, by linarith⟩
+  · exact ⟨by linarith, by linarith⟩
+
+theorem psV2gVehicle_hstep (ops : BatOps α B) (law : BatLaw ops) (env : FEnv α) (curWindow : Option Bool)
+    (K : List (String × Option String × Bool)) (hnd : (K.map (·.1)).Nodup)
+    (acc : V2gAcc α B) (v0 : VehicleS α B) (acc' : V2gAcc α B)
+    (h : psV2gVehicle ops env curWindow acc v0 = .ok acc')
+    (hK : acc.st.w.vehicles.map vkey = K) (hv0 : vkey v0 ∈ K) (hv2g : v0.v2g = true) :
+    acc'.st.w.stations = acc.st.w.stations ∨
+    ∃ cs x, cs ∈ acc.st.w.stations ∧ v0.cs = some cs.id ∧
+      acc'.st.w.stations = (acc.st.w.setStation { cs with currentPower := cs.currentPower + x }).stations ∧
+      (0 ≤ cs.currentPower → cs.currentPower ≤ cs.maxPower →
+        -cs.maxPower ≤ cs.currentPower + x ∧ cs.currentPower + x ≤ cs.maxPower) ∧
+      (0 ≤ x ∨ v0.v2g = true) := by
+  rcases psV2gVehicle_station_step ops law env curWindow acc acc' v0 h with hs | ⟨csId, cs, x, hcs, hst, hs, hx⟩
+  · exact Or.inl hs
+  · right
+    have hkey := lookup_key acc.st.w K hK hnd v0 hv0
+    have hcs' : v0.cs = some cs.id := by
+      have : ((acc.st.w.vehicle? v0.id).getD v0).cs = v0.cs := by
+        have := congrArg (fun k => k.2.1) hkey
+        simpa [vkey] using this
+      rw [← this, getStation_id _ _ _ hst]; exact hcs
+    exact ⟨cs, x, getStation_mem _ _ _ hst, hcs', hs, fun h0 h1 => room_bounds cs x hx h0 h1, Or.inr hv2g⟩
+
+/-- what `Strategy.distribute_surplus_power` does to the station of one vehicle -/
+theorem surplusVehicle_station_step (ops : BatOps α B) (law : BatLaw ops) (env : StratEnv α)
+    (cheap : List (String × Bool)) (w w' : SWorld α B) (cmds cmds' : List (String × α)) (v : VehicleS α B)
+    (h : surplusVehicle ops env cheap w cmds v = .ok (w', cmds')) :
+    (w'.stations = w.stations ∧ w'.vehicles = w.vehicles) ∨
+    ∃ csId cs x bat', v.cs = some csId ∧ w.station? csId = some cs ∧
+      w'.stations = (w.setStation { cs with currentPower := cs.currentPower + x }).stations ∧
+      w'.vehicles = (w.setVehicle { v with bat := bat' }).vehicles ∧
+      ((0 ≤ x ∧ x ≤ max (cs.maxPower - cs.currentPower) 0) ∨ (x ≤ 0 ∧ -(max cs.maxPower 0) ≤ x ∧ v.v2g = true)) := by
+  unfold surplusVehicle at h
+  split at h
+  · simp only [Except.ok.injEq, Prod.mk.injEq] at h; obtain ⟨rfl, _⟩ := h; exact Or.inl ⟨rfl, rfl⟩
+  · rename_i csId hcs
+    split at h
+    · cases h
+    · rename_i cs hst
+      split at h
+      · cases h
+      · simp only at h
+        split at h
+        · simp only [bind, Except.bind] at h
+          split at h
+          · cases h
+          · rename_i r hl
+            simp only [Except.ok.injEq, Prod.mk.injEq] at h
+            obtain ⟨rfl, _⟩ := h
+            obtain ⟨ha0, hap⟩ := law.load_max _ _ _ _ hl
+            refine Or.inr ⟨csId, cs, r.2, r.1, hcs, hst, rfl, rfl, Or.inl ⟨ha0, le_trans hap (max_le ?_ (le_max_right _ _))⟩⟩
+            exact clampV_le_room (B := B) _ cs v
+        · split at h
+          · rename_i hcond
+            simp only [bind, Except.bind] at h
+            split at h
+            · cases h
+            · rename_i r hl
+              simp only [Except.ok.injEq, Prod.mk.injEq] at h
+              obtain ⟨rfl, _⟩ := h
+              obtain ⟨ha0, hap⟩ := law.unload_max _ _ _ _ _ hl
+              refine Or.inr ⟨csId, cs, -r.2, r.1, hcs, hst, by simp only [sub_eq_add_neg]; rfl, rfl,
+                Or.inr ⟨by linarith, ?_, hcond.2.2.1⟩⟩
+              rw [neg_le_neg_iff]
+              refine le_trans hap (max_le ?_ (le_max_right _ _))
+              simp only [pymin_eq]
+              exact le_trans (min_le_right _ _) (le_max_left _ _)
+          · simp only [Except.ok.injEq, Prod.mk.injEq] at h; obtain ⟨rfl, _⟩ := h; exact Or.inl ⟨rfl, rfl⟩
+
+theorem setVehicle_keys' (w : SWorld α B) (v0 v : VehicleS α B) (b : B) (hf : w.vehicle? v0.id = some v)
+    (hnd : (w.vehicles.map (·.id)).Nodup) :
+    (w.setVehicle { v with bat := b }).vehicles.map vkey = w.vehicles.map vkey := by
+  have := setVehicle_keys w v0 b hnd
+  rw [hf] at this
+  simpa using this
+
+/-- the surplus pass of the base class (used by greedy / needy) keeps the station invariants -/
+theorem distributeSurplus_jinv (ops : BatOps α B) (law : BatLaw ops) (env : StratEnv α)
+    (K : List (String × Option String × Bool)) (hnd : (K.map (·.1)).Nodup)
+    (w w' : SWorld α B) (cmds : List (String × α)) (N : List String)
+    (hK : w.vehicles.map vkey = K) (hcsd : (w.vehicles.filterMap (·.cs)).Nodup)
+    (hN : ∀ c ∈ w.vehicles.filterMap (·.cs), c ∉ N)
+    (hj : JInv N K w.stations) (h : distributeSurplus ops env w = .ok (w', cmds)) :
+    w'.vehicles.map vkey = K ∧ ∃ N', JInv N' K w'.stations := by
+  unfold distributeSurplus at h
+  simp only [bind, Except.bind] at h
+  split at h
+  · cases h
+  · rename_i cheap _
+    refine visitFold (fun (a : SWorld α B × List (String × α)) => a.1) _ K (fun _ => True) ?_ ?_
+      w.vehicles (w, []) (w', cmds) N hK (fun v0 hv0 => ⟨by rw [← hK]; exact List.mem_map_of_mem hv0, trivial⟩)
+      hcsd hN hj h
+    · intro s v0 s' hf hKs
+      split at hf
+      · simp only [Except.ok.injEq] at hf; subst hf; exact hKs
+      · rename_i v hv
+        rcases surplusVehicle_station_step ops law env cheap s.1 s'.1 s.2 s'.2 v hf with ⟨_, hveh⟩ | ⟨_, _, _, b', _, _, _, hveh, _⟩
+        · rw [hveh]; exact hKs
+        · rw [hveh, ← hKs]
+          exact setVehicle_keys' s.1 v0 v b' hv (ids_of_keys s.1 K hKs hnd)
+    · intro s v0 s' hf hKs hv0 _
+      split at hf
+      · simp only [Except.ok.injEq] at hf; subst hf; exact Or.inl rfl
+      · rename_i v hv
+        have hkey := lookup_key s.1 K hKs hnd v0 hv0
+        rw [hv] at hkey
+        simp only [Option.getD_some] at hkey
+        rcases surplusVehicle_station_step ops law env cheap s.1 s'.1 s.2 s'.2 v hf with ⟨hst, _⟩ | ⟨csId, cs, x, _, hcs, hst, hs, _, hx⟩
+        · exact Or.inl hst
+        · right
+          obtain ⟨hmem, hid⟩ := station?_some s.1 csId cs hst
+          have hv0cs : v0.cs = some cs.id := by
+            have : v.cs = v0.cs := by
+              have := congrArg (fun k => k.2.1) hkey
+              simpa [vkey] using this
+            rw [← this, hid]; exact hcs
+          have hv2 : v.v2g = v0.v2g := by
+            have := congrArg (fun k => k.2.2) hkey
+            simpa [vkey] using this
+          refine ⟨cs, x, hmem, hv0cs, hs, fun h0 h1 => ?_, ?_⟩
+          · refine room_bounds cs x ?_ h0 h1
+            rcases hx with hx | ⟨a, b, _⟩
+            · exact Or.inl hx
+            · exact Or.inr ⟨a, b⟩
+          · rcases hx with hx | ⟨_, _, c⟩
+            · exact Or.inl hx.1
+            · exact Or.inr (hv2 ▸ c)
+
+/-- the sorted, filtered vehicle list: members, and their stations -/
+theorem sortedSub (ops : BatOps α B) (strat : LoadStrat) (l vs : List (VehicleS α B))
+    (p : VehicleS α B → Bool) (h : sortedVehicles ops strat (l.filter p) = .ok vs) :
+    (∀ v0 ∈ vs, v0 ∈ l ∧ p v0 = true) ∧ ((l.filterMap (·.cs)).Nodup → (vs.filterMap (·.cs)).Nodup) ∧
+      (∀ c ∈ vs.filterMap (·.cs), c ∈ l.filterMap (·.cs)) := by
+  have hvs := sortedVehicles_ok ops strat _ vs h
+  have hperm : vs.Perm (l.filter p) := by rw [hvs]; exact List.mergeSort_perm _ _
+  have hsubl : (vs.filterMap (·.cs)).Perm ((l.filter p).filterMap (·.cs)) := hperm.filterMap _
+  have hsl : ((l.filter p).filterMap (·.cs)).Sublist (l.filterMap (·.cs)) :=
+    List.Sublist.filterMap _ List.filter_sublist
+  refine ⟨?_, ?_, ?_⟩
+  · intro v0 hv0
+    have := hperm.mem_iff.mp hv0
+    exact List.mem_filter.mp this
+  · intro hnd
+    rw [hsubl.nodup_iff]
+    exact List.Nodup.sublist hsl hnd
+  · intro c hc
+    exact hsl.subset (hsubl.mem_iff.mp hc)
+
+theorem distributePeakShavingV2g_jinv (ops : BatOps α B) (law : BatLaw ops) (env : FEnv α)
+    (K : List (String × Option String × Bool)) (hnd : (K.map (·.1)).Nodup)
+    (st st' : FState α B) (cmds : List (String × α)) (N : List String)
+    (hK : st.w.vehicles.map vkey = K) (hcsd : (st.w.vehicles.filterMap (·.cs)).Nodup)
+    (hN : ∀ c ∈ st.w.vehicles.filterMap (·.cs), c ∉ N)
+    (hj : JInv N K st.w.stations) (h : distributePeakShavingV2g ops env st = .ok (st', cmds)) :
+    st'.w.vehicles.map vkey = K ∧ ∃ N', JInv N' K st'.w.stations := by
+  unfold distributePeakShavingV2g at h
+  simp only [bind, Except.bind] at h
+  split at h
+  · cases h
+  · rename_i vs hvs
+    obtain ⟨hm, hndv, hsubc⟩ := sortedSub ops _ _ vs _ hvs
+    split at h
+    · cases h
+    · split at h
+      · cases h
+      · rename_i r hr
+        simp only [Except.ok.injEq, Prod.mk.injEq] at h
+        obtain ⟨rfl, _⟩ := h
+        exact visitFold (fun (a : V2gAcc α B) => a.st.w) (psV2gVehicle ops env _) K (fun v => v.v2g = true)
+          (fun s v0 s' hf hKs => by
+            rw [psV2gVehicle_keys ops env _ s s' v0 (ids_of_keys s.st.w K hKs hnd) hf]; exact hKs)
+          (fun s v0 s' hf hKs hv0 hv2 => psV2gVehicle_hstep ops law env _ K hnd s v0 s' hf hKs hv0 hv2)
+          vs _ r N hK
+          (fun v0 hv0 => ⟨by rw [← hK]; exact List.mem_map_of_mem (hm v0 hv0).1, by
+            have := (hm v0 hv0).2
+            simp only [Bool.and_eq_true] at this; exact this.2⟩)
+          (hndv hcsd) (fun c hc => hN c (hsubc c hc)) hj hr
+
+theorem mem_sdSet' {β : Type} (l : List (String × β)) (k : String) (v : β) (kv : String × β)
+    (h : kv ∈ sdSet l k v) : kv ∈ l ∨ kv = (k, v) := by
+  induction l with
+  | nil => simp [sdSet] at h; right; exact h
+  | cons x xs ih =>
+    obtain ⟨xk, xv⟩ := x
+    by_cases hk : (xk == k) = true
+    · simp only [sdSet, hk, if_true, List.mem_cons] at h
+      rcases h with h | h
+      · right; rw [h]; simp at hk; rw [hk]
+      · left; exact List.mem_cons_of_mem _ h
+    · simp only [sdSet, hk, Bool.false_eq_true, if_false, List.mem_cons] at h
+      rcases h with h | h
+      · left; rw [h]; exact List.mem_cons_self ..
+      · rcases ih h with h' | h'
+        · left; exact List.mem_cons_of_mem _ h'
+        · right; exact h'
+
+theorem sdSet_nodup {β : Type} (l : List (String × β)) (k : String) (v : β)
+    (hnd : (l.map (·.1)).Nodup) : ((sdSet l k v).map (·.1)).Nodup := by
+  induction l with
+  | nil => simp [sdSet]
+  | cons x xs ih =>
+    obtain ⟨xk, xv⟩ := x
+    simp only [List.map_cons, List.nodup_cons] at hnd
+    by_cases hk : (xk == k) = true
+    · simp only [sdSet, hk, if_true, List.map_cons, List.nodup_cons]; exact hnd
+    · simp only [sdSet, hk, Bool.false_eq_true, if_false, List.map_cons, List.nodup_cons]
+      refine ⟨?_, ih hnd.2⟩
+      intro hin
+      simp only [List.mem_map] at hin
+      obtain ⟨kv, hkv, hkv1⟩ := hin
+      rcases mem_sdSet' xs k v kv hkv with h' | h'
+      · exact hnd.1 (by rw [← hkv1]; exact List.mem_map_of_mem h')
+      · rw [h'] at hkv1; simp only at hkv1; rw [hkv1] at hk; simp at hk
+
+theorem station?_setStation_ne (w : SWorld α B) (s' : StationS α) (k : String) (hne : k ≠ s'.id) :
+    (w.setStation s').station? k = w.station? k := by
+  unfold SWorld.setStation SWorld.station?
+  simp only
+  induction w.stations with
+  | nil => rfl
+  | cons x xs ih =>
+    simp only [List.map_cons, List.find?_cons]
+    by_cases hx : (x.id == s'.id) = true
+    · have hxk : (x.id == k) = false := by
+        simp only [beq_iff_eq] at hx
+        simp only [beq_eq_false_iff_ne]; rw [hx]; exact Ne.symm hne
+      have hsk : (s'.id == k) = false := by simp only [beq_eq_false_iff_ne]; exact Ne.symm hne
+      simp only [hx, if_true, hsk, hxk]
+      exact ih
+    · simp only [hx, Bool.false_eq_true, if_false]
+      split
+      · rfl
+      · exact ih
+
+/-- **per-call bound of `distribute_power`:** every command is the charge of a connected vehicle at that
+station, non-negative and within the station's room; one entry per station -/
+theorem distributePower_entries (ops : BatOps α B) (law : BatLaw ops) (env : FEnv α)
+    (w : SWorld α B) (vs vs' : List (VehicleS α B)) (P N : α) (cmds : List (String × α))
+    (h : distributePower ops env w vs P N = .ok (vs', cmds)) :
+    (cmds.map (·.1)).Nodup ∧ ∀ kv ∈ cmds, ∃ cs0 v, v ∈ vs ∧ v.cs = some kv.1 ∧ getStation w kv.1 = .ok cs0 ∧
+      0 ≤ kv.2 ∧ kv.2 ≤ max (cs0.maxPower - cs0.currentPower) 0 := by
+  unfold distributePower at h
+  split at h
+  · simp only [Except.ok.injEq, Prod.mk.injEq] at h
+    obtain ⟨_, rfl⟩ := h
+    exact ⟨by simp, by simp⟩
+  · simp only [bind, Except.bind] at h
+    split at h
+    · cases h
+    · rename_i r hr
+      simp only [Except.ok.injEq, Prod.mk.injEq] at h
+      obtain ⟨_, rfl⟩ := h
+      refine foldlM_inv_mem _ (fun (a : List (VehicleS α B) × List (String × α) × α) =>
+        (a.2.1.map (·.1)).Nodup ∧ ∀ kv ∈ a.2.1, ∃ cs0 v, v ∈ vs ∧ v.cs = some kv.1 ∧ getStation w kv.1 = .ok cs0 ∧
+          0 ≤ kv.2 ∧ kv.2 ≤ max (cs0.maxPower - cs0.currentPower) 0) vs ?_ ([], [], P) r ⟨by simp, by simp⟩ hr
+      intro s x s' hx hp hs
+      obtain ⟨hnd, hent⟩ := hp
+      split at hs
+      · cases hs
+      · rename_i csId hcs
+        split at hs
+        · cases hs
+        · rename_i cs hst
+          split at hs
+          · cases hs
+          · skip
+            split at hs
+            · cases hs
+            · rename_i rl hl
+              rw [liftM_ok] at hl
+              simp only [Except.ok.injEq] at hs
+              subst hs
+              obtain ⟨ha0, hap⟩ := law.load_max _ _ _ _ hl
+              refine ⟨sdSet_nodup _ _ _ hnd, ?_⟩
+              intro kv hkv
+              rcases mem_sdSet' _ _ _ kv hkv with h1 | h1
+              · exact hent kv h1
+              · rw [h1]
+                exact ⟨cs, x, hx, hcs, hst, ha0, le_trans hap (max_le (clampV_le_room _ _ _) (le_max_right _ _))⟩
+
+theorem getStation_congr (w w0 : SWorld α B) (k : String) (h : w.station? k = w0.station? k) :
+    getStation w k = getStation w0 k := by
+  unfold getStation; rw [h]
+
+/-- the loop `for cs_id, power in commands.items()` of `distribute_peak_shaving_vehicles` -/
+theorem applyFold {ε : Type}
+    (f : FState α B × List (String × α) → String × α → Except ε (FState α B × List (String × α)))
+    (hspec : ∀ a kv a', f a kv = .ok a' → ∃ cs, getStation a.1.w kv.1 = .ok cs ∧
+      a'.1.w.stations = (a.1.w.setStation { cs with currentPower := cs.currentPower + kv.2 }).stations ∧
+      a'.1.w.vehicles = a.1.w.vehicles)
+    (w0 : SWorld α B) (N : List String) (K : List (String × Option String × Bool)) :
+    ∀ (l : List (String × α)) (a a' : FState α B × List (String × α)), (l.map (·.1)).Nodup →
+      (∀ kv ∈ l, a.1.w.station? kv.1 = w0.station? kv.1) →
+      (∀ kv ∈ l, ∃ cs0 k, getStation w0 kv.1 = .ok cs0 ∧ 0 ≤ kv.2 ∧
+        kv.2 ≤ max (cs0.maxPower - cs0.currentPower) 0 ∧ k ∈ K ∧ k.2.1 = some kv.1) →
+      JInv N K a.1.w.stations → l.foldlM f a = .ok a' →
+      JInv N K a'.1.w.stations ∧ a'.1.w.vehicles = a.1.w.vehicles := by
+  intro l
+  induction l with
+  | nil =>
+    intro a a' _ _ _ hj h
+    simp only [List.foldlM_nil, pure, Except.pure, Except.ok.injEq] at h
+    subst h; exact ⟨hj, rfl⟩
+  | cons kv rest ih =>
+    intro a a' hnd hsame hent hj h
+    simp only [List.foldlM_cons, bind, Except.bind] at h
+    split at h
+    · cases h
+    · rename_i a1 h1
+      obtain ⟨cs, hgs, hst, hveh⟩ := hspec a kv a1 h1
+      obtain ⟨cs0, k, hgs0, hx0, hx, hk, hkc⟩ := hent kv (List.mem_cons_self ..)
+      have : cs = cs0 := by
+        rw [getStation_congr _ w0 _ (hsame kv (List.mem_cons_self ..)), hgs0] at hgs
+        simp only [Except.ok.injEq] at hgs; exact hgs.symm
+      subst this
+      have hid := getStation_id _ _ _ hgs
+      simp only [List.map_cons, List.nodup_cons] at hnd
+      have hj1 : JInv N K a1.1.w.stations := by
+        rw [hst]
+        exact JInv.charge N K a.1.w cs kv.2 k hk (by rw [hid]; exact hkc) hj (getStation_mem _ _ _ hgs) hx0 hx
+      have hsame1 : ∀ kv' ∈ rest, a1.1.w.station? kv'.1 = w0.station? kv'.1 := by
+        intro kv' hkv'
+        rw [← hsame kv' (List.mem_cons_of_mem _ hkv')]
+        have hne : kv'.1 ≠ cs.id := by
+          rw [hid]; intro he
+          exact hnd.1 (by rw [← he]; exact List.mem_map_of_mem hkv')
+        have : a1.1.w.station? kv'.1 = (a.1.w.setStation { cs with currentPower := cs.currentPower + kv.2 }).station? kv'.1 := by
+          unfold SWorld.station?; rw [hst]
+        rw [this]
+        exact station?_setStation_ne _ _ _ hne
+      obtain ⟨hj', hv'⟩ := ih a1 a' hnd.2 hsame1 (fun kv' hkv' => hent kv' (List.mem_cons_of_mem _ hkv')) hj1 h
+      exact ⟨hj', by rw [hv', hveh]⟩
+
+/-- the vehicles returned by `distribute_power` are the given ones with new batteries -/
+theorem distributePower_vehicles (ops : BatOps α B) (env : FEnv α)
+    (w : SWorld α B) (vs vs' : List (VehicleS α B)) (P N : α) (cmds : List (String × α))
+    (h : distributePower ops env w vs P N = .ok (vs', cmds)) :
+    ∀ u ∈ vs', ∃ v ∈ vs, vkey u = vkey v := by
+  unfold distributePower at h
+  split at h
+  · simp only [Except.ok.injEq, Prod.mk.injEq] at h
+    obtain ⟨rfl, _⟩ := h
+    exact fun u hu => ⟨u, hu, rfl⟩
+  · simp only [bind, Except.bind] at h
+    split at h
+    · cases h
+    · rename_i r hr
+      simp only [Except.ok.injEq, Prod.mk.injEq] at h
+      obtain ⟨rfl, _⟩ := h
+      refine foldlM_inv_mem _ (fun (a : List (VehicleS α B) × List (String × α) × α) =>
+        ∀ u ∈ a.1, ∃ v ∈ vs, vkey u = vkey v) vs ?_ ([], [], P) r (by simp) hr
+      intro s x s' hx hp hs
+      repeat' split at hs
+      all_goals first
+        | (simp only [Except.ok.injEq] at hs; subst hs
+           intro u hu
+           simp only [List.mem_append, List.mem_singleton] at hu
+           rcases hu with hu | hu
+           · exact hp u hu
+           · exact ⟨x, hx, by rw [hu]; rfl⟩)
+        | cases hs
+
+theorem mergeById_keys (sim upd : List (VehicleS α B)) (hnd : (sim.map (·.id)).Nodup)
+    (hupd : ∀ u ∈ upd, ∃ v ∈ sim, vkey u = vkey v) : (mergeById sim upd).map vkey = sim.map vkey := by
+  unfold mergeById
+  rw [List.map_map]
+  apply List.map_congr_left
+  intro x hx
+  simp only [Function.comp]
+  cases hf : upd.find? (·.id == x.id) with
+  | none => rfl
+  | some u =>
+    simp only [Option.getD_some]
+    have hu : u ∈ upd := List.mem_of_find?_eq_some hf
+    have hid : u.id = x.id := by simpa using List.find?_some hf
+    obtain ⟨v, hv, hkey⟩ := hupd u hu
+    have hvid : v.id = x.id := by
+      have := congrArg (fun k => k.1) hkey
+      simp only [vkey] at this
+      rw [← this]; exact hid
+    have : v = x := eq_of_id_eq sim hnd v x hv hx hvid
+    rw [hkey, this]
+
+theorem distributePeakShavingVehicles_jinv (ops : BatOps α B) (law : BatLaw ops) (env : FEnv α)
+    (K : List (String × Option String × Bool)) (hnd : (K.map (·.1)).Nodup)
+    (st st' : FState α B) (cmds : List (String × α)) (N : List String)
+    (hK : st.w.vehicles.map vkey = K)
+    (hj : JInv N K st.w.stations) (h : distributePeakShavingVehicles ops env st = .ok (st', cmds)) :
+    st'.w.vehicles.map vkey = K ∧ JInv N K st'.w.stations := by
+  unfold distributePeakShavingVehicles at h
+  simp only [bind, Except.bind] at h
+  split at h
+  · cases h
+  · split at h
+    · cases h
+    · rename_i vehicles hvs
+      obtain ⟨hm, _, _⟩ := sortedSub ops _ _ vehicles _ hvs
+      split at h
+      · cases h
+      · split at h
+        · cases h
+        · split at h
+          · cases h
+          · rename_i dp hdp
+            obtain ⟨vs', dcm⟩ := dp
+            have hfacts : ((dcm.map (·.1)).Nodup ∧ ∀ kv ∈ dcm, ∃ cs0 v, v ∈ vehicles ∧ v.cs = some kv.1 ∧
+                getStation st.w kv.1 = .ok cs0 ∧ 0 ≤ kv.2 ∧ kv.2 ≤ max (cs0.maxPower - cs0.currentPower) 0) ∧
+                ∀ u ∈ vs', ∃ v ∈ vehicles, vkey u = vkey v := by
+              split at hdp
+              · split at hdp
+                · cases hdp
+                · exact ⟨distributePower_entries ops law env _ _ _ _ _ _ hdp,
+                    distributePower_vehicles ops env _ _ _ _ _ _ hdp⟩
+              · split at hdp
+                · exact ⟨distributePower_entries ops law env _ _ _ _ _ _ hdp,
+                    distributePower_vehicles ops env _ _ _ _ _ _ hdp⟩
+                · simp only [Except.ok.injEq, Prod.mk.injEq] at hdp
+                  obtain ⟨rfl, rfl⟩ := hdp
+                  exact ⟨⟨by simp, by simp⟩, fun u hu => ⟨u, hu, rfl⟩⟩
+            obtain ⟨⟨hndk, hent⟩, hvs'⟩ := hfacts
+            simp only at h
+            have hids := ids_of_keys st.w K hK hnd
+            have hkeys0 : (mergeById st.w.vehicles vs').map vkey = K := by
+              rw [mergeById_keys st.w.vehicles vs' hids
+                (fun u hu => by obtain ⟨v, hv, e⟩ := hvs' u hu; exact ⟨v, (hm v hv).1, e⟩)]
+              exact hK
+            have res := applyFold _ ?_ st.w N K dcm _ (st', cmds) hndk (fun kv _ => rfl) ?_ hj h
+            · obtain ⟨hj', hv'⟩ := res
+              exact ⟨by rw [hv']; exact hkeys0, hj'⟩
+            · intro a kv a' ha
+              split at ha
+              · cases ha
+              · rename_i cs hgs
+                split at ha
+                · cases ha
+                · split at ha
+                  · cases ha
+                  · rename_i hass
+                    simp only [Except.ok.injEq] at ha
+                    subst ha
+                    simp only [Bool.not_eq_true', Bool.not_eq_false, Bool.and_eq_true, decide_eq_true_eq] at hass
+                    have hval := le_antisymm hass.1 hass.2
+                    refine ⟨cs, hgs, ?_, rfl⟩
+                    simp only [hval]
+                    rfl
+            · intro kv hkv
+              obtain ⟨cs0, v, hv, hvc, hgs, h0, h1⟩ := hent kv hkv
+              exact ⟨cs0, vkey v, hgs, h0, h1, by rw [← hK]; exact List.mem_map_of_mem (hm v hv).1, hvc⟩
+
+theorem distributePeakShavingBatteries_stations (ops : BatOps α B) (env : FEnv α) (st st' : FState α B)
+    (h : distributePeakShavingBatteries ops env st = .ok st') : st'.w.stations = st.w.stations := by
+  unfold distributePeakShavingBatteries at h
+  simp only [bind, Except.bind] at h
+  split at h
+  · cases h
+  · split at h
+    · split at h
+      · cases h
+      · split at h
+        · cases h
+        · cases h
+        · split at h
+          · cases h
+          · rename_i r hr
+            simp only [Except.ok.injEq] at h
+            subst h
+            refine foldlM_inv _ (fun (a : FState α B × α) => a.1.w.stations = st.w.stations) ?_ st.w.batteries _ r rfl hr
+            intro s x s' hp hs
+            repeat' split at hs
+            all_goals first
+              | (simp only [Except.ok.injEq] at hs; subst hs; exact hp)
+              | cases hs
+    · split at h
+      · cases h
+      · split at h
+        · cases h
+        · cases h
+        · refine foldlM_inv _ (fun (a : FState α B) => a.w.stations = st.w.stations) ?_ st.w.batteries st st' rfl h
+          intro s x s' hp hs
+          repeat' split at hs
+          all_goals first
+            | (simp only [Except.ok.injEq] at hs; subst hs; exact hp)
+            | cases hs
+
+/-- **whole step, LOAD_STRAT ≠ balanced (code with FW1/FW2):** the station invariants hold afterwards -/
+theorem step_ps_jinv (ops : BatOps α B) (law : BatLaw ops) (env : FEnv α)
+    (hstrat : env.strat ≠ .balanced)
+    (w w' : SWorld α B) (window win' : Option Bool) (events : List (FEvent α))
+    (cmds : List (String × α)) (hmax : ∀ s ∈ w.stations, 0 ≤ s.maxPower)
+    (hvid : (w.vehicles.map (·.id)).Nodup) (hcsd : (w.vehicles.filterMap (·.cs)).Nodup)
+    (h : step ops env w window events = .ok (w', win', cmds)) :
+    ∃ N', JInv N' (w.vehicles.map vkey) w'.stations := by
+  set K := w.vehicles.map vkey with hKdef
+  have hnd : (K.map (·.1)).Nodup := by
+    rw [hKdef, List.map_map]; exact hvid
+  have hfm : ∀ l : List (VehicleS α B), l.map vkey = K → l.filterMap (·.cs) = w.vehicles.filterMap (·.cs) := by
+    intro l hl
+    have e1 : ∀ l : List (VehicleS α B), l.filterMap (·.cs) = (l.map vkey).filterMap (·.2.1) := by
+      intro l; rw [List.filterMap_map]; rfl
+    rw [e1, e1, hl]
+  unfold step at h
+  simp only [bind, Except.bind] at h
+  split at h
+  · cases h
+  · split at h
+    · cases h
+    · split at h
+      · cases h
+      · rename_i t0 rest
+        have hne : (env.strat == LoadStrat.balanced) = false := by simpa using hstrat
+        simp only [hne, Bool.false_eq_true, if_false] at h
+        have hj0 : JInv [] K (resetStations w).stations := by
+          constructor
+          · intro s hs
+            unfold resetStations at hs
+            simp only [List.mem_map] at hs
+            obtain ⟨s0, hs0, rfl⟩ := hs
+            have := hmax s0 hs0
+            exact ⟨by simp only; linarith, by simpa using this, fun _ => le_refl _⟩
+          · intro s hs
+            unfold resetStations at hs
+            simp only [List.mem_map] at hs
+            obtain ⟨s0, _, rfl⟩ := hs
+            exact ⟨Or.inl rfl, Or.inl (le_refl _)⟩
+        split at h
+        · cases h
+        · rename_i r1 h1
+          obtain ⟨st1, c1⟩ := r1
+          obtain ⟨hk1, hj1⟩ := distributePeakShavingVehicles_jinv ops law env K hnd _ st1 c1 [] rfl hj0 h1
+          simp only at h
+          split at h
+          · cases h
+          · split at h
+            · cases h
+            · rename_i r2 h2
+              obtain ⟨st2, c2, lv⟩ := r2
+              have hj2 : ∃ N', JInv N' K st2.w.stations := by
+                split at h2
+                · split at h2
+                  · cases h2
+                  · rename_i r hs
+                    rw [liftPy_ok] at hs
+                    simp only [pure, Except.pure, Except.ok.injEq, Prod.mk.injEq] at h2
+                    obtain ⟨rfl, _, _⟩ := h2
+                    exact (distributeSurplus_jinv ops law env.base K hnd st1.w r.1 r.2 [] hk1
+                      (by rw [hfm _ hk1]; exact hcsd) (fun c _ => List.not_mem_nil) hj1 hs).2
+                · split at h2
+                  · cases h2
+                  · rename_i r hs
+                    simp only [pure, Except.pure, Except.ok.injEq, Prod.mk.injEq] at h2
+                    obtain ⟨rfl, _, _⟩ := h2
+                    exact (distributePeakShavingV2g_jinv ops law env K hnd st1 r.1 r.2 [] hk1
+                      (by rw [hfm _ hk1]; exact hcsd) (fun c _ => List.not_mem_nil) hj1 hs).2
+              simp only at h
+              split at h
+              · cases h
+              · split at h
+                · cases h
+                · rename_i st3 h3
+                  simp only [Except.ok.injEq, Prod.mk.injEq] at h
+                  obtain ⟨rfl, _, _⟩ := h
+                  have hst3 : st3.w.stations = st2.w.stations := by
+                    split at h3
+                    · split at h3
+                      · cases h3
+                      · rename_i w3 hs
+                        simp only [pure, Except.pure, Except.ok.injEq] at h3
+                        subst h3
+                        exact surplusToBatteries_stations ops env _ _ hs
+                    · exact distributePeakShavingBatteries_stations ops env _ _ h3
+                  rw [hst3]; exact hj2
+/-! ### bookkeeping, LOAD_STRAT greedy / needy -/
+
+/-- `FInv` only looks at connectors, stations and batteries -/
+theorem FInv.congr (BK : List String) (w1 w2 : SWorld α B) (hg : w2.gcs = w1.gcs) (hs : w2.stations = w1.stations)
+    (hb : w2.batteries = w1.batteries) (h : FInv BK w1) : FInv BK w2 := by
+  obtain ⟨⟨g, hg1⟩, he, h3, h4⟩ := h
+  refine ⟨⟨g, by rw [hg]; exact hg1⟩, ?_, by rw [hs]; exact h3, by rw [hb]; exact h4⟩
+  intro g' hg' s hsm
+  rw [hg] at hg'; rw [hs] at hsm
+  exact he g' hg' s hsm
+
+theorem psV2gVehicle_finv (ops : BatOps α B) (env : FEnv α) (BK : List String) (curWindow : Option Bool)
+    (acc acc' : V2gAcc α B) (v0 : VehicleS α B)
+    (hinv : FInv BK acc.st.w) (h : psV2gVehicle ops env curWindow acc v0 = .ok acc') :
+    FInv BK acc'.st.w := by
+  obtain ⟨g, hg⟩ := hinv.1
+  unfold psV2gVehicle at h
+  simp only [bind, Except.bind, pure, Except.pure] at h
+  split at h
+  · simp only [Except.ok.injEq] at h; subst h; exact hinv
+  · split at h
+    · cases h
+    · split at h
+      · cases h
+      · rename_i cs hst
+        split at h
+        · cases h
+        · split at h
+          · cases h
+          · split at h
+            · simp only [Except.ok.injEq] at h; subst h; exact hinv
+            · rw [theGc_single _ g hg] at h
+              simp only at h
+              split at h
+              · repeat' split at h
+                all_goals first
+                  | (simp only [Except.ok.injEq] at h; subst h
+                     exact FInv.vehicleUpdate BK acc.st.w g hg _ cs _ _ hinv hst)
+                  | cases h
+              · split at h
+                · cases h
+                · split at h
+                  · cases h
+                  · split at h
+                    · cases h
+                    · split at h
+                      · cases h
+                      · split at h
+                        · cases h
+                        · rename_i r _
+                          simp only [Except.ok.injEq] at h
+                          subst h
+                          have := FInv.vehicleUpdate BK acc.st.w g hg _ cs (-r.2)
+                            { ((acc.st.w.vehicle? v0.id).getD v0) with bat := r.1 } hinv hst
+                          simpa [sub_eq_add_neg] using this
+
+theorem surplusVehicle_finv (ops : BatOps α B) (env : StratEnv α) (BK : List String)
+    (cheap : List (String × Bool)) (w w' : SWorld α B) (cmds cmds' : List (String × α)) (v : VehicleS α B)
+    (hinv : FInv BK w) (h : surplusVehicle ops env cheap w cmds v = .ok (w', cmds')) : FInv BK w' := by
+  obtain ⟨g, hg⟩ := hinv.1
+  unfold surplusVehicle at h
+  split at h
+  · simp only [Except.ok.injEq, Prod.mk.injEq] at h; obtain ⟨rfl, _⟩ := h; exact hinv
+  · rename_i csId _
+    split at h
+    · cases h
+    · rename_i cs hst
+      have hgs : getStation w csId = .ok cs := by unfold getStation; rw [hst]
+      split at h
+      · cases h
+      · rename_i gc hgc
+        have : gc = g := gc?_single _ g gc _ hg hgc
+        subst this
+        simp only at h
+        split at h
+        · simp only [bind, Except.bind] at h
+          split at h
+          · cases h
+          · simp only [Except.ok.injEq, Prod.mk.injEq] at h
+            obtain ⟨rfl, _⟩ := h
+            exact FInv.vehicleUpdate BK w gc hg _ cs _ _ hinv hgs
+        · split at h
+          · simp only [bind, Except.bind] at h
+            split at h
+            · cases h
+            · rename_i r _
+              simp only [Except.ok.injEq, Prod.mk.injEq] at h
+              obtain ⟨rfl, _⟩ := h
+              have := FInv.vehicleUpdate BK w gc hg csId cs (-r.2) { v with bat := r.1 } hinv hgs
+              simpa [sub_eq_add_neg] using this
+          · simp only [Except.ok.injEq, Prod.mk.injEq] at h; obtain ⟨rfl, _⟩ := h; exact hinv
+
+theorem distributeSurplus_finv (ops : BatOps α B) (env : StratEnv α) (BK : List String)
+    (w w' : SWorld α B) (cmds : List (String × α))
+    (hinv : FInv BK w) (h : distributeSurplus ops env w = .ok (w', cmds)) : FInv BK w' := by
+  unfold distributeSurplus at h
+  simp only [bind, Except.bind] at h
+  split at h
+  · cases h
+  · refine foldlM_inv _ (fun (a : SWorld α B × List (String × α)) => FInv BK a.1) ?_ w.vehicles (w, [])
+      (w', cmds) hinv h
+    intro s x s' hp hs
+    split at hs
+    · simp only [Except.ok.injEq] at hs; subst hs; exact hp
+    · exact surplusVehicle_finv ops env BK _ s.1 s'.1 s.2 s'.2 _ hp hs
+
+/-- station update without a vehicle update (the command loop of `distribute_peak_shaving_vehicles`) -/
+theorem FInv.stationUpdate (BK : List String) (w : SWorld α B) (g : GcS α) (hg : w.gcs = [g])
+    (csId : String) (cs : StationS α) (x : α) (hinv : FInv BK w) (hst : getStation w csId = .ok cs) :
+    FInv BK ((w.setGc (g.addLoad csId x).1).setStation { cs with currentPower := cs.currentPower + x }) := by
+  have hid := getStation_id _ _ _ hst
+  subst hid
+  have hcs := getStation_mem _ _ _ hst
+  obtain ⟨_, he, hs, hb⟩ := hinv
+  have hgs : ((w.setGc (g.addLoad cs.id x).1).setStation
+      { cs with currentPower := cs.currentPower + x }).gcs = [(g.addLoad cs.id x).1] := by
+    simp only [setStation_gcs]
+    exact setGc_single _ g cs.id x hg
+  refine ⟨⟨_, hgs⟩, ?_, ?_, hb⟩
+  · intro g' hg' s hsm
+    rw [hgs] at hg'
+    simp only [List.cons.injEq, and_true] at hg'
+    subst hg'
+    rw [addLoad_entry]
+    rcases mem_setStation' _ _ s hsm with rfl | ⟨hm, hne⟩
+    · simp only [if_true]
+      rw [he g hg cs hcs]
+    · have : s.id ≠ cs.id := hne
+      simp only [this, if_false]
+      exact he g hg s (by simpa using hm)
+  · intro s hsm
+    rcases mem_setStation _ _ s hsm with rfl | hm
+    · exact hs cs hcs
+    · exact hs s (by simpa using hm)
+
+theorem distributePeakShavingVehicles_finv (ops : BatOps α B) (env : FEnv α) (BK : List String)
+    (st st' : FState α B) (cmds : List (String × α))
+    (hinv : FInv BK st.w) (h : distributePeakShavingVehicles ops env st = .ok (st', cmds)) : FInv BK st'.w := by
+  unfold distributePeakShavingVehicles at h
+  simp only [bind, Except.bind] at h
+  split at h
+  · cases h
+  · split at h
+    · cases h
+    · split at h
+      · cases h
+      · split at h
+        · cases h
+        · split at h
+          · cases h
+          · refine foldlM_inv _ (fun (a : FState α B × List (String × α)) => FInv BK a.1.w) ?_ _ _ (st', cmds)
+              (FInv.congr BK st.w _ rfl rfl rfl hinv) h
+            intro a kv a' hp ha
+            obtain ⟨g, hg⟩ := hp.1
+            split at ha
+            · cases ha
+            · rename_i cs hgs
+              rw [theGc_single _ g hg] at ha
+              simp only at ha
+              split at ha
+              · cases ha
+              · rename_i hass
+                simp only [Except.ok.injEq] at ha
+                subst ha
+                simp only [Bool.not_eq_true', Bool.not_eq_false, Bool.and_eq_true, decide_eq_true_eq] at hass
+                have hval := le_antisymm hass.1 hass.2
+                have := FInv.stationUpdate BK a.1.w g hg kv.1 cs kv.2 hp hgs
+                simp only [hval]
+                exact this
+
+theorem distributePeakShavingV2g_finv (ops : BatOps α B) (env : FEnv α) (BK : List String)
+    (st st' : FState α B) (cmds : List (String × α))
+    (hinv : FInv BK st.w) (h : distributePeakShavingV2g ops env st = .ok (st', cmds)) : FInv BK st'.w := by
+  unfold distributePeakShavingV2g at h
+  simp only [bind, Except.bind] at h
+  split at h
+  · cases h
+  · rename_i vs _
+    split at h
+    · cases h
+    · split at h
+      · cases h
+      · rename_i r hr
+        simp only [Except.ok.injEq, Prod.mk.injEq] at h
+        obtain ⟨rfl, _⟩ := h
+        exact foldlM_inv (psV2gVehicle ops env _) (fun a => FInv BK a.st.w)
+          (fun s x s' hp hs => psV2gVehicle_finv ops env BK _ s s' x hp hs) vs _ r hinv hr
+
+theorem distributePeakShavingBatteries_finv (ops : BatOps α B) (env : FEnv α) (BK : List String)
+    (st st' : FState α B) (hinv : FInv BK st.w)
+    (h : distributePeakShavingBatteries ops env st = .ok st') : FInv BK st'.w := by
+  unfold distributePeakShavingBatteries at h
+  simp only [bind, Except.bind] at h
+  split at h
+  · cases h
+  · split at h
+    · split at h
+      · cases h
+      · split at h
+        · cases h
+        · cases h
+        · split at h
+          · cases h
+          · rename_i r hr
+            simp only [Except.ok.injEq] at h
+            subst h
+            refine foldlM_inv_mem _ (fun (a : FState α B × α) => FInv BK a.1.w) st.w.batteries ?_ _ r hinv hr
+            intro s x s' hx hp hs
+            obtain ⟨g, hg⟩ := hp.1
+            have hxb : x.id ∈ BK := hinv.2.2.2 x hx
+            simp only [theGc_single _ g hg] at hs
+            repeat' split at hs
+            all_goals first
+              | (simp only [Except.ok.injEq] at hs; subst hs
+                 first | exact hp | exact FInv.batteryUpdate BK s.1.w g hg x hxb _ _ hp)
+              | (cases hs; done)
+    · split at h
+      · cases h
+      · split at h
+        · cases h
+        · cases h
+        · refine foldlM_inv_mem _ (fun (a : FState α B) => FInv BK a.w) st.w.batteries ?_ st st' hinv h
+          intro s x s' hx hp hs
+          obtain ⟨g, hg⟩ := hp.1
+          have hxb : x.id ∈ BK := hinv.2.2.2 x hx
+          rw [theGc_single _ g hg] at hs
+          simp only at hs
+          split at hs
+          · cases hs
+          · simp only [Except.ok.injEq] at hs
+            subst hs
+            exact FInv.batteryUpdate BK s.w g hg x hxb _ _ hp
+
+/-- **whole step, LOAD_STRAT ≠ balanced:** afterwards every station's load entry at the connector equals its
+`current_power` -/
+theorem step_ps_finv (ops : BatOps α B) (env : FEnv α) (hstrat : env.strat ≠ .balanced)
+    (w w' : SWorld α B) (window win' : Option Bool) (events : List (FEvent α))
+    (cmds : List (String × α)) (g : GcS α) (hg : w.gcs = [g])
+    (h0 : ∀ s ∈ w.stations, (sdGet g.loads s.id).getD 0 = 0)
+    (hsb : ∀ s ∈ w.stations, ∀ b ∈ w.batteries, s.id ≠ b.id)
+    (h : step ops env w window events = .ok (w', win', cmds)) :
+    FInv (w.batteries.map (·.id)) w' := by
+  set BK := w.batteries.map (·.id) with hBK
+  unfold step at h
+  simp only [bind, Except.bind] at h
+  split at h
+  · cases h
+  · split at h
+    · cases h
+    · split at h
+      · cases h
+      · rename_i t0 rest
+        have hne : (env.strat == LoadStrat.balanced) = false := by simpa using hstrat
+        simp only [hne, Bool.false_eq_true, if_false] at h
+        have hinv0 : FInv BK (resetStations w) := by
+          refine ⟨⟨g, by simpa using hg⟩, ?_, ?_, ?_⟩
+          · intro g' hg' s hs
+            rw [resetStations_gcs, hg] at hg'
+            simp only [List.cons.injEq, and_true] at hg'
+            subst hg'
+            unfold resetStations at hs
+            simp only [List.mem_map] at hs
+            obtain ⟨s0, hs0, rfl⟩ := hs
+            exact h0 s0 hs0
+          · intro s hs hin
+            unfold resetStations at hs
+            simp only [List.mem_map] at hs
+            obtain ⟨s0, hs0, rfl⟩ := hs
+            rw [hBK, List.mem_map] at hin
+            obtain ⟨b, hb, hbe⟩ := hin
+            exact hsb s0 hs0 b hb hbe.symm
+          · intro b hb
+            rw [hBK]
+            exact List.mem_map_of_mem (by simpa using hb)
+        split at h
+        · cases h
+        · rename_i r1 h1
+          obtain ⟨st1, c1⟩ := r1
+          have hinv1 := distributePeakShavingVehicles_finv ops env BK _ st1 c1 hinv0 h1
+          simp only at h
+          split at h
+          · cases h
+          · split at h
+            · cases h
+            · rename_i r2 h2
+              obtain ⟨st2, c2, lv⟩ := r2
+              have hinv2 : FInv BK st2.w := by
+                split at h2
+                · split at h2
+                  · cases h2
+                  · rename_i r hs
+                    rw [liftPy_ok] at hs
+                    simp only [pure, Except.pure, Except.ok.injEq, Prod.mk.injEq] at h2
+                    obtain ⟨rfl, _, _⟩ := h2
+                    exact distributeSurplus_finv ops env.base BK st1.w r.1 r.2 hinv1 hs
+                · split at h2
+                  · cases h2
+                  · rename_i r hs
+                    simp only [pure, Except.pure, Except.ok.injEq, Prod.mk.injEq] at h2
+                    obtain ⟨rfl, _, _⟩ := h2
+                    exact distributePeakShavingV2g_finv ops env BK st1 r.1 r.2 hinv1 hs
+              simp only at h
+              split at h
+              · cases h
+              · split at h
+                · cases h
+                · rename_i st3 h3
+                  simp only [Except.ok.injEq, Prod.mk.injEq] at h
+                  obtain ⟨rfl, _, _⟩ := h
+                  split at h3
+                  · split at h3
+                    · cases h3
+                    · rename_i w3 hs
+                      simp only [pure, Except.pure, Except.ok.injEq] at h3
+                      subst h3
+                      exact surplusToBatteries_finv ops env BK _ _ hinv2 hs
+                  · exact distributePeakShavingBatteries_finv ops env BK _ _ hinv2 h3
 /-! ### concrete instances for the non-vacuity examples and witnesses -/
 
 /-- an ideal 10 kWh battery for 1 h steps (state = SoC), used for the non-vacuity examples -/
